@@ -30,3 +30,97 @@ Theorem C20_nested_le_flat : forall docs qs,
   forall i, In i (sem_nested docs (QConj qs)) -> In i (sem_flat docs (QConj qs)).
 Proof. exact nested_le_flat. Qed.
 Print Assumptions C20_nested_le_flat.
+
+(* ---------- mechanism (Nested/ProofsForest.v, ProofsJoin.v, ProofsFlatten.v, Proofs.v) ---------- *)
+From Verif Require Import Nested.ProofsForest Nested.ProofsJoin Nested.ProofsFlatten Nested.Proofs.
+
+(* [flatten] lays documents out as the theorems below need: ascending numbers, ancestors are
+   earlier documents with the corresponding chains, level-j ancestors are monotone *)
+Theorem C20_flatten_wf : forall docs, forest_wf (flatten docs).
+Proof. exact flatten_wf. Qed.
+Print Assumptions C20_flatten_wf.
+
+(* collector: for ANY strictly ascending match stream over a flattened forest the folded output
+   is exactly the distinct roots of the matches, each once, ascending *)
+Theorem C20_nested_store_roots_once : forall docs stream,
+  StronglySorted Z.lt stream ->
+  (forall id, In id stream -> exists x, In x (flatten docs) /\ fn_id x = id) ->
+  let out := fold_roots (flatten docs) stream in
+  StronglySorted Z.lt out /\ NoDup out /\
+  (forall r, In r out <-> exists m, In m stream /\ root_in (flatten docs) m = Some r).
+Proof. exact nested_store_roots_once. Qed.
+Print Assumptions C20_nested_store_roots_once.
+
+(* NestedConjunctionSearcher: the transcribed join over child lists returns, ascending and once
+   each, the child matches whose ancestor at joinIdx has a match from every child *)
+Theorem C20_nested_conj_correct : forall F j cs,
+  forest_wf F -> cs <> [] ->
+  (forall c, In c cs -> StronglySorted Z.lt c /\ forall x, In x c -> exists k, key_at F j x = Some k) ->
+  exists out, nested_join F j cs = Some out /\ StronglySorted Z.lt out /\
+    forall x, In x out <->
+      (In x (concat cs) /\ forall c, In c cs -> exists y, In y c /\ key_at F j y = key_at F j x).
+Proof. exact nested_conj_correct. Qed.
+Print Assumptions C20_nested_conj_correct.
+
+(* DocCount = number of parents; after deleting parents (AddNestedDocuments) the rest *)
+Theorem C20_count_roots : forall docs,
+  count_root (flatten docs) [] = zlen docs /\
+  forall drops, NoDup drops ->
+    (forall r, In r drops -> exists x, In x (flatten docs) /\ is_root x = true /\ fn_id x = r) ->
+    count_root (flatten docs) (add_nested (flatten docs) drops) = zlen docs - zlen drops.
+Proof. exact count_roots. Qed.
+Print Assumptions C20_count_roots.
+
+(* a delete/update of parents obsoletes exactly the documents under those parents *)
+Theorem C20_delete_closed : forall docs drops x,
+  In x (flatten docs) ->
+  (In (fn_id x) (add_nested (flatten docs) drops) <->
+   exists r, root_of_anc (fn_anc x) = Some r /\ In r drops).
+Proof. exact delete_closed. Qed.
+Print Assumptions C20_delete_closed.
+
+(* ---------- known findings: the full-strength statements are FALSE of today's searchers ----------
+   nested_bool_correct_stmt := forall must should mustnot min docs,
+        model_search docs (QBool must should mustnot min) = Some (sem_nested docs (QBool ...))
+   nested_disj_correct_stmt := forall min qs docs,
+        model_search docs (QDisj min qs) = Some (sem_nested docs (QDisj min qs)) *)
+Theorem C20_nested_bool_correct_false : ~ nested_bool_correct_stmt.
+Proof. exact nested_bool_correct_false. Qed.
+Print Assumptions C20_nested_bool_correct_false.
+
+Theorem C20_nested_bool_refuted :
+  exists docs must mustnot,
+    model_search docs (QBool must [] mustnot 0) = Some [1; 2] /\
+    sem_nested docs (QBool must [] mustnot 0) = [] /\
+    must = [QTerm [] w_top w_x] /\ mustnot = [QTerm [w_items] w_color w_red].
+Proof. exact nested_bool_refuted. Qed.
+Print Assumptions C20_nested_bool_refuted.
+
+Theorem C20_nested_bool_sibling_refuted :
+  exists docs must mustnot,
+    model_search docs (QBool must [] mustnot 0) = Some [1; 2] /\
+    sem_nested docs (QBool must [] mustnot 0) = [2] /\
+    must = [QTerm [w_items] w_color w_red] /\ mustnot = [QTerm [w_parts] w_name w_n1].
+Proof. exact nested_bool_sibling_refuted. Qed.
+Print Assumptions C20_nested_bool_sibling_refuted.
+
+Theorem C20_nested_bool_mustnot_only_refuted :
+  exists docs,
+    model_search docs (QBool [] [] [QTerm [] w_top w_x] 0) = Some [-1; -1; -1; -1; 4] /\
+    sem_nested docs (QBool [] [] [QTerm [] w_top w_x] 0) = [4] /\
+    model_search docs (QBool [] [] [QTerm [w_items] w_color w_red] 0) = Some [1; 2; 4] /\
+    sem_nested docs (QBool [] [] [QTerm [w_items] w_color w_red] 0) = [4].
+Proof. exact nested_bool_mustnot_only_refuted. Qed.
+Print Assumptions C20_nested_bool_mustnot_only_refuted.
+
+Theorem C20_nested_disj_correct_false : ~ nested_disj_correct_stmt.
+Proof. exact nested_disj_correct_false. Qed.
+Print Assumptions C20_nested_disj_correct_false.
+
+Theorem C20_nested_disj_min_refuted :
+  exists docs qs,
+    model_search docs (QDisj 2 qs) = Some [] /\ sem_nested docs (QDisj 2 qs) = [1; 2] /\
+    model_search docs (QBool [] qs [] 2) = Some [] /\ sem_nested docs (QBool [] qs [] 2) = [1; 2] /\
+    qs = [QTerm [w_items] w_color w_red; QTerm [] w_top w_x].
+Proof. exact nested_disj_min_refuted. Qed.
+Print Assumptions C20_nested_disj_min_refuted.
